@@ -12,21 +12,21 @@ COMMON_NOTE = ("Trusted: Coq kernel (coqc; coqchk in the thorough tier), no axio
 
 P = {
  "C01": ("Coq model of the whole DSL pipeline (pre-pass, lexer, recursive-descent parser, listener, printer; Model/Lexer.v, Parser.v, Listener.v, Printer.v, Transform.v) "
-         "with theorems in Properties/C01.v; the model's three-round composition (Transform.roundtrip) is run against the implementation's on every document, through the JSON string API and in memory, "
+         "with theorems in Properties/C01.v (every parsed model is expressible and always renders, by either API path; at parse-tree level the text printed for a parsed relation is the canonical rendering of a grammatical definition with the SAME denotation — the parser's output is already in the printer's normal form); the model's three-round composition (Transform.roundtrip) is run against the implementation's on every document, through the JSON string API and in memory, "
          "and the property itself (model equality modulo expression whitespace, byte stability) is checked on the implementation for every accepted document.",
-         "ANTLR lexer/parser semantics and protojson are modelled (assumptions listed in Model/Lexer.v, Parser.v, Transform.v), not verified."),
- "C02": ("Theorems in Properties/C02.v about Model/Printer.v (the transcription of jsontodsl.go): the printer succeeds exactly on expressible rewrites; correspondence of the printer model with both printer paths byte for byte, "
+         "Not mechanised: parse(lex(render d)) = d for canonical renderings (observed on every run). ANTLR lexer/parser semantics and protojson are modelled (assumptions listed in Model/Lexer.v, Parser.v, Transform.v), not verified."),
+ "C02": ("Theorems in Properties/C02.v about Model/Printer.v (the transcription of jsontodsl.go): the printer succeeds exactly on expressible rewrites, and (lossless) the text it writes is the canonical rendering of a grammatical parse tree whose denotation — also through the listener's rewrite stack — is the input rewrite up to [normalize] (direct assignment hoisted, one-operand operators collapsed) with exactly the relation's type restrictions; the Coq specification itself (carriable/expressible/normalize) is evaluated by the extracted model on every relation and compared with the implementation's re-parsed output; correspondence of the printer model with both printer paths byte for byte, "
          "an independent specification (count/first-position, normalisation) as oracle on random models and on every rewrite tree up to 5/7 nodes, and parse-back of every output.",
-         "Domain of the statement: carriable models (what a DSL document can express at all); degenerate shapes are correspondence-only."),
+         "Not mechanised: parse(lex(render d)) = d (observed). Domain of the statement: carriable models (what a DSL document can express at all); degenerate shapes are correspondence-only."),
  "C03": ("Theorems in Properties/C03.v about the listener model (rewrite-stack discipline = denotation of the parse tree); token streams of Model/Lexer.v against the generated Go lexer, "
          "models against the implementation, and the implementation against the model written, for generated syntax trees under an independent layout renderer.",
          "ANTLR semantics assumed as stated in Model/Lexer.v / Parser.v; error recovery not modelled."),
  "C04": ("Faithful Coq transcription of the builder and of AssignWeights with the depth-first start order as explicit argument (Model/WGraph.v, WWeights.v), run against the implementation (hooked to take the same order) on every model; "
-         "theorems in Properties/C04.v; the property's own definition (maximum tuple-hop depth as least fixed point on the model, edge rule, no placeholder) as oracle against the implementation.",
-         "Known findings K-C04-operands and K-WG-cycles delimit where the unmodified code departs from the statement; inner map orders of AssignWeights are sampled, not driven."),
+         "theorems in Properties/C04.v: the three strategies as functions on weight maps, and the GLOBAL statement for graphs without cycles — for every depth-first start order, if assignment succeeds every node carries exactly the order-free specification Spec/GraphWeights.spec_weights (invariant of the traversal, Proofs/DagWeights.v); the decidable hypothesis (dag_check) and the specification are evaluated by the extracted model on every generated model and compared with what the implementation stored; the property's own definition (maximum tuple-hop depth as least fixed point on the model, edge rule, no placeholder) as oracle against the implementation.",
+         "Not proved: graphs with tuple cycles; equality of the graph-level specification with the model-level definition (they differ exactly at K-C04-operands). Known findings K-C04-operands and K-WG-cycles delimit where the unmodified code departs from the statement; inner map orders of AssignWeights are sampled, not driven."),
  "C05": ("Same model as C04; theorems in Properties/C05.v; well-foundedness computed on the model (tuple-free cycles, constrained cycles, builder conditions, empty intersections, relations without terminal type) as oracle for the verdict under every explicit start order.",
          "Known findings K-WG-cycles and K-C04-operands; the equivalence is proved only on the stated domain."),
- "C06": ("Same model as C04: the only schedule (start order) is an argument of the model; theorems in Properties/C06.v; all outcomes of a model (explicit orders, repeated unhooked Build, permuted type definitions) compared.",
+ "C06": ("Same model as C04: the only schedule (start order) is an argument of the model; theorems in Properties/C06.v (independence of the order of type definitions; on graphs without cycles the weights do not depend on the start order at all — both orders give the order-free specification); all outcomes of a model (explicit orders, repeated unhooked Build, permuted type definitions) compared.",
          "Inner map iteration orders and concurrency are sampled by repetition; known finding K-WG-cycles."),
  "C07": ("Coq transcription of TransformModuleFilesToModel (Model/Merge.v) over the parser model; theorems in Properties/C07.v; correspondence on generated module sets with a catalogue of injected conflicts; "
          "conflict-freedom and the exact attributed union computed from the generator's syntax trees as oracle.",
@@ -37,7 +37,7 @@ P = {
          "ANTLR semantics assumed as in C03."),
  "C10": ("Theorems in Properties/C10.v about Model/WGraph.wbuild; the built graph of the implementation is compared with the extracted model (nodes, ordered edges, kinds, labels, conditions) and decoded against the model by an independent structure check; input model unchanged.",
          "Operator node names are canonicalised structurally (ULIDs are random)."),
- "C11": ("Same model as C04 (wildcard propagation transcribed); theorems in Properties/C11.v; wildcard lists of every node and edge against reachability of T:* nodes in the built graph, per explicit start order.",
+ "C11": ("Same model as C04 (wildcard propagation transcribed); theorems in Properties/C11.v: on graphs without cycles, for every start order, the list of a node holds exactly the public types whose wildcard node is reachable (inductive reachability), each edge carries its target's set, and no list has duplicates; the executable form (spec_wildcards) is compared with the implementation's lists per run; wildcard lists of every node and edge against reachability of T:* nodes in the built graph, per explicit start order.",
          "Known finding K-WG-cycles delimits the unproved cyclic part."),
  "C12": ("Model/Merge.merge takes no iteration-order argument (after repair F5); theorems in Properties/C12.v; each list merged repeatedly in one process, all permutations of small lists, correspondence per permutation.",
          "Go map order is sampled by repetition."),
